@@ -58,9 +58,7 @@ func connProp(c connCase) common.Result {
 				id := 1 + (r+k)%c.N
 				switch c.Lookups[(r+k)%len(c.Lookups)] {
 				case 0:
-					if info, ok := cfg.ReplicaInfo(hotstuff.ID(id)); ok {
-						_ = info.Metadata["x"]
-					}
+					_, _ = cfg.ReplicaInfo(hotstuff.ID(id))
 				case 1:
 					_ = cfg.QuorumSize()
 				case 2:
